@@ -1015,16 +1015,39 @@ func (db *DB) initDatabaseFile() error {
 
 	assert(db.pageSize > 0, "page size must be greater than zero")
 
+	// An in-header size of zero is legal (SQLite then uses the file size).
+	if hdr.PageN == 0 {
+		fi, err := f.Stat()
+		if err != nil {
+			return err
+		}
+		db.pageN.Store(uint32(fi.Size() / int64(db.pageSize)))
+	}
+	if db.PageN() == 0 {
+		return nil // nothing to checksum
+	}
+
 	db.chksums.mu.Lock()
 	defer db.chksums.mu.Unlock()
 
 	// Build per-page checksum map for existing pages. The database could be
 	// short compared to the page count in the header so just checksum what we
 	// can. The database may recover in applyLTX() so we'll do validation then.
-	db.chksums.pages = make([]ltx.Checksum, db.PageN())
-	db.chksums.blocks = make([]ltx.Checksum, pageChksumBlock(db.PageN()))
+	//
+	// Size the tables by what the file can hold, not by the header's claim: a
+	// damaged page count (up to 2^32-1) would otherwise allocate 8 bytes per
+	// claimed page. Pages beyond the table read as zero and the table grows
+	// when they are written.
+	n := db.PageN()
+	if fi, err := f.Stat(); err != nil {
+		return err
+	} else if m := uint32((fi.Size() + int64(db.pageSize) - 1) / int64(db.pageSize)); n > m {
+		n = m
+	}
+	db.chksums.pages = make([]ltx.Checksum, n)
+	db.chksums.blocks = make([]ltx.Checksum, pageChksumBlock(n))
 
-	lastGoodPage, err := ltx.ChecksumPages(db.DatabasePath(), db.pageSize, db.PageN(), 0, db.chksums.pages)
+	lastGoodPage, err := ltx.ChecksumPages(db.DatabasePath(), db.pageSize, n, 0, db.chksums.pages)
 
 	// lastGoodPage tells us how far we got before the first error. Most likely
 	// is that we got an EOF because the db was short, in which case no
